@@ -368,6 +368,41 @@ def selective_attachment_case(ck, rng, stats):
     sb.cleanup()
 
 
+def command_per_attachment_case(ck, rng, stats):
+    """a command condition evaluated once per attachment runs the program once per attachment, whatever the arguments"""
+    sb = mdrun.Sandbox()
+    src = sb.maildir('src'); dst = sb.maildir('dst')
+    helper = common.rec_helper()
+    hout = os.path.join(sb.root, 'helper-out'); os.makedirs(hout)
+    n = rng.choice([2, 3, 4])
+    text = b'To: a\nContent-Type: multipart/mixed; boundary="cp"\n\n' + b''.join(b'--cp\nContent-Type: text/plain\n\npart %d\n' % i for i in range(n)) + b'--cp--\n'
+    nmsg = rng.choice([1, 2])
+    for _ in range(nmsg):
+        sb.add(src, 'new', text)
+    form = rng.randrange(4)
+    if form == 0:       # no part satisfies the command: every part is asked
+        rule = b'match attachment command { "%s" "exit=1" "same" } move "%s"' % (helper.encode(), dst.encode()); per_msg = n; moved = 0
+    elif form == 1:     # negated: holds iff no part satisfies it
+        rule = b'match ! attachment command { "%s" "exit=1" "same" } move "%s"' % (helper.encode(), dst.encode()); per_msg = n; moved = nmsg
+    elif form == 2:     # the first part satisfies it: asked once
+        rule = b'match attachment command { "%s" "exit=0" "same" } move "%s"' % (helper.encode(), dst.encode()); per_msg = 1; moved = nmsg
+    else:               # inside an attachment block: the condition is evaluated for every part, then the action runs for every part
+        rule = b'match all attachment {\n\t\tmatch command { "%s" "exit=0" "same" } exec { "%s" "ran" }\n\t}' % (helper.encode(), helper.encode()); per_msg = 2 * n; moved = 0
+    conf = sb.write_conf(b'maildir "%s" {\n\t%s\n}\n' % (src.encode(), rule))
+    rc, out, err = sb.run([], conf=conf, env={'VERIF_HELPER_OUT': hout, 'VERIF_HELPER_EXIT': '0'})
+    stats['runs'] += 1; stats['per_attachment'] = stats.get('per_attachment', 0) + 1
+    calls = common.helper_calls(hout)
+    nm = len(sb.snapshot(dst))
+    if len(calls) != per_msg * nmsg or nm != moved or rc != 0:
+        stats['viol'] += 1
+        ck.violation('%d message(s) of %d parts, rule %r: the programs ran %d time(s) (expected %d), %d message(s) moved (expected %d), exit %d'
+                     % (nmsg, n, rule[:90], len(calls), per_msg * nmsg, nm, moved, rc),
+                     {'config': open(conf, 'rb').read().decode(errors='replace'), 'message': text.decode(), 'exit': rc, 'stderr': err[-300:].decode(errors='replace')})
+    else:
+        stats['nontrivial'] += 1
+    sb.cleanup()
+
+
 def environment_case(ck, rng, stats):
     """The process environment of the children is the one mdsort was started with - whatever mdsort did to its own in between
     (date conditions on a zone abbreviation set TZ for a moment) - and so is the working directory."""
@@ -455,6 +490,7 @@ def run(ck):
         if i % 3 == 2:
             selective_attachment_case(ck, ck.rng, stats)
             environment_case(ck, ck.rng, stats)
+            command_per_attachment_case(ck, ck.rng, stats)
         if len(ck.violations) > 6:
             break
     ck.coverage.update({
@@ -464,7 +500,7 @@ def run(ck):
                 'placed after nothing / label / add-header / flag / move and before nothing / move / label, helper exit 0 / 3 / 127 / SIGKILL, in maildir and stdin '
                 '(a third of the moves / flags before the exec across file systems); rules with 2-4 exec actions of mixed stdin options (and a command condition): every child gets what its own action asks for; attachment blocks whose rule selects some of 2-6 parts (exec stdin / stdin body, a quarter with a failing command followed by a move); '
                 'mode, over plain, base64, quoted-printable and multipart/alternative bodies; command conditions with exit 0/1/7/127/SIGTERM; attachment blocks over '
-                'generated MIME trees; runs over 1-4 messages with date conditions on zone abbreviations started with TZ unset / empty / set: environment and working directory of every child equal those mdsort itself was started with. non-trivial = the command ran exactly once (or the parts were compared); counted per run',
+                'generated MIME trees; command conditions evaluated per attachment (plain, negated, inside a block) with identical arguments: one run per part; runs over 1-4 messages with date conditions on zone abbreviations started with TZ unset / empty / set: environment and working directory of every child equal those mdsort itself was started with. non-trivial = the command ran exactly once (or the parts were compared); counted per run',
         'samples': samples,
         'traces_validated_against_impl': stats['runs'],
     })
